@@ -1136,7 +1136,9 @@ def run(ctx):
         "implementation AND by the model inside Coq (document trees, reader); distinct = distinct (descriptor field "
         "types, value classes per field, descriptors on/off); non-trivial = the history holds at least one set "
         "(non-None) value. Variants (RecordWriter by extension / jsonfile:// URI, indent=2) are compared with the "
-        "base text / trees and counted as evaluations only; plus a fresh-interpreter smoke (child process importing only "
+        "base text / trees and counted as evaluations only; plus REFUSED-WRITE histories (a record json.dumps refuses -- a raw "
+        "object in a typed list, an integer beyond the int/str limit -- first of its type / between / twice, the application carries "
+        "on: accepted records read back in order, documents = model's tolerant writer, evaluated in Coq); plus a fresh-interpreter smoke (child process importing only "
         "flow.record, one per supported type and one with all types: text and read-back = in-process result)")
     ok = core.standard_proof_stage(ctx, ["props/C14.vo"], "C14", THEOREMS, search_fn=search, gens=["gen_json"])
     ctx.assumptions += [
